@@ -88,7 +88,7 @@ pub fn judge_tx(ctx: &mut Ctx, w: &World, st: &St, t: &PTx, what: &dyn Fn() -> S
 fn sc_helpers(ctx: &mut Ctx) {
     let nr = ctx.choose_free(3);
     let as_array = ctx.choose_free(2) == 1;
-    let dsel = ctx.choose_free(6);
+    let dsel = ctx.choose_free(9);
     let csel = ctx.choose_free(4);
     ctx.observe(&(nr, as_array, dsel, csel));
     let mut reds = Redeemers::new();
@@ -114,7 +114,11 @@ fn sc_helpers(ctx: &mut Ctx) {
         2 => Some(mk(&[1])),
         3 => Some(mk(&[1, 2])),
         4 => Some(mk(&[1, 1, 2])),
-        _ => Some(PlutusList::from_bytes(vec![0x9f, 0x01, 0x02, 0xff]).unwrap()),
+        5 => Some(PlutusList::from_bytes(vec![0x9f, 0x01, 0x02, 0xff]).unwrap()),
+        // decoded definite lists, with a repeated element, and one the same datum in two encodings
+        6 => Some(PlutusList::from_bytes(vec![0x83, 0x01, 0x01, 0x02]).unwrap()),
+        7 => Some(PlutusList::from_bytes(vec![0xd9, 0x01, 0x02, 0x83, 0x02, 0x01, 0x01]).unwrap()),
+        _ => Some(PlutusList::from_bytes(vec![0x82, 0x01, 0x18, 0x01]).unwrap()),
     };
     let mut cm = Costmdls::new();
     WORLD.with(|w| {
@@ -165,7 +169,7 @@ fn sc_helpers(ctx: &mut Ctx) {
         pre.extend_from_slice(&lv);
         if blake2b256(&pre) != got {
             ctx.violation(
-                format!("{}/hash_script_data-differs-from-emitted-witness-bytes/{}", P, if dsel == 4 { "duplicate-datum" } else if as_array { "array-redeemers" } else { "plain" }),
+                format!("{}/hash_script_data-differs-from-emitted-witness-bytes/{}", P, if dsel == 4 || dsel == 6 || dsel == 7 { "duplicate-datum" } else if as_array { "array-redeemers" } else { "plain" }),
                 format!("redeemers {} datums#{} langs {:?}: helper {} vs blake2b256({})", nr, dsel, langs, hx(&got), hx(&pre)),
             );
         } else {
